@@ -26,7 +26,7 @@ def P(pid, units, text, note, lemmas=(), modules=SO_MODS, assumptions=(), truste
                       drops=['X1 logger calls', 'X2 py2 branches', 'X3 clock/random as fresh symbolic values', 'X7 regions of _onTick by statement'])
 
 
-P('C01', ['getEntries', 'msg.append_entries', 'applyLogEntries', 'doApplyCommand', 'sendAppendEntries', 'tick.leader', 'msg.next_node_idx',
+P('C01', ['tick.orchestration', 'getEntries', 'msg.append_entries', 'applyLogEntries', 'doApplyCommand', 'sendAppendEntries', 'tick.leader', 'msg.next_node_idx',
           'loadDumpFile', 'checkCommandsToApply'],
   'Per-function contracts, proved for all inputs on the real AST, for every mechanism the property is anchored in: follower accepts '
   'append_entries only on a matching predecessor and removes an entry only on conflict (R6,R7), commits only the verified prefix '
@@ -71,7 +71,7 @@ P('C04', ['getEntries', 'tick.leader', 'tick.not-leader', 'msg.next_node_idx', '
   'Cross-node finality ("never differs on any node") is ' + A_RAFT + '.',
   lemmas=['FRAME-C04', 'X-ENGINE'], assumptions=[A_RAFT, 'R_AE'])
 
-P('C06', ['init.startup', 'loadDumpFile', 'msg.append_entries', 'tryLogCompaction', 'serializer.serialize', 'serializer.checkSerializing',
+P('C06', ['tick.orchestration', 'init.startup', 'loadDumpFile', 'msg.append_entries', 'tryLogCompaction', 'serializer.serialize', 'serializer.checkSerializing',
           'serializer.setTransmissionData.file', 'ResizableFile.write', 'FileJournal.add', 'FileJournal.clear', 'FileJournal.deleteEntriesFrom',
           'FileJournal.deleteEntriesTo', 'FileJournal.reopen'],
   'Start-up/compaction side of durability as contracts: the follower acknowledges only after the journal append (O6.1, ghost event '
